@@ -25,3 +25,15 @@ void vfh_dtls_replay_state(const ssl_t *ssl, unsigned long *bitmap, unsigned cha
     memcpy(expEpoch, ssl->expectedEpoch, 2);
 }
 #endif
+/* AES-CBC write key of the active cipher (0 when the suite is not AES-CBC): lets a property re-pad a genuine CBC record */
+int vfh_aes_cbc_write_key(const ssl_t *ssl, unsigned char *key, int max)
+{
+    const sslCipherSpec_t *cs = ssl->cipher;
+    if (cs == NULL || cs->blockSize != 16 || !(cs->flags & CRYPTO_FLAGS_AES) ||
+        (cs->flags & (CRYPTO_FLAGS_GCM | CRYPTO_FLAGS_CHACHA)) || cs->keySize > max)
+    {
+        return 0;
+    }
+    memcpy(key, ssl->sec.writeKey, cs->keySize);
+    return cs->keySize;
+}
